@@ -78,6 +78,38 @@ static int64_t zigzag_decode64(uint64_t n) {
 }
 
 /* ============================================================================
+ * 64-bit bit packing (LSB first) for delta widths above 32
+ * ============================================================================
+ *
+ * Miniblocks are bit-packed at their declared width whatever that width is;
+ * carquet_bitpack_32() only covers widths up to 32.
+ */
+
+static void delta_unpack64(const uint8_t* in, int count, int width, uint64_t* out) {
+    size_t bit = 0;
+    for (int i = 0; i < count; i++) {
+        uint64_t v = 0;
+        for (int b = 0; b < width; b++, bit++) {
+            v |= (uint64_t)((in[bit >> 3] >> (bit & 7)) & 1) << b;
+        }
+        out[i] = v;
+    }
+}
+
+static void delta_pack64(const uint64_t* values, int count, int width, uint8_t* out) {
+    size_t total_bits = (size_t)count * (size_t)width;
+    memset(out, 0, (total_bits + 7) / 8);
+    size_t bit = 0;
+    for (int i = 0; i < count; i++) {
+        for (int b = 0; b < width; b++, bit++) {
+            if ((values[i] >> b) & 1) {
+                out[bit >> 3] |= (uint8_t)(1u << (bit & 7));
+            }
+        }
+    }
+}
+
+/* ============================================================================
  * Delta Decoder Implementation
  * ============================================================================
  */
@@ -189,22 +221,24 @@ static carquet_status_t delta_decoder_read_mini_block(delta_decoder_t* dec) {
         }
 
         dec->pos += packed_size;
-    } else {
-        /* Unpack 64-bit values (stored as little-endian bytes) */
-        int bytes_per_value = (bit_width + 7) / 8;
-        size_t packed_size = mini_block_size * bytes_per_value;
+    } else if (bit_width <= 64) {
+        /* Widths 33..64: bit-packed like every other width */
+        size_t packed_size = ((size_t)mini_block_size * (size_t)bit_width + 7) / 8;
         if (dec->pos + packed_size > dec->size) {
             return CARQUET_ERROR_DECODE;
         }
 
+        uint64_t unpacked64[DELTA_MINI_BLOCK_SIZE];
+        delta_unpack64(dec->data + dec->pos, mini_block_size, bit_width, unpacked64);
+
         for (int i = 0; i < mini_block_size; i++) {
-            uint64_t val = 0;
-            for (int b = 0; b < bytes_per_value; b++) {
-                val |= (uint64_t)dec->data[dec->pos++] << (b * 8);
-            }
             /* Use unsigned addition to avoid overflow UB */
-            dec->mini_block_values[i] = (int64_t)((uint64_t)dec->min_delta + val);
+            dec->mini_block_values[i] = (int64_t)((uint64_t)dec->min_delta + unpacked64[i]);
         }
+
+        dec->pos += packed_size;
+    } else {
+        return CARQUET_ERROR_DECODE;
     }
 
     dec->current_mini_block++;
@@ -389,13 +423,8 @@ static carquet_status_t delta_encoder_flush_block(delta_encoder_t* enc) {
         bit_widths[mb] = (uint8_t)bit_width_required(max_val);
         if (bit_widths[mb] > 0) {
             /* Calculate bytes needed for this mini-block */
-            if (bit_widths[mb] <= 32) {
-                /* Bitpacked: mini_block_size values * bit_width / 8 */
-                packed_bytes_needed += (size_t)mini_block_size * bit_widths[mb] / 8;
-            } else {
-                /* Byte-by-byte: mini_block_size values * bytes_per_value */
-                packed_bytes_needed += (size_t)mini_block_size * ((bit_widths[mb] + 7) / 8);
-            }
+            /* Bitpacked: mini_block_size values * bit_width / 8 */
+            packed_bytes_needed += (size_t)mini_block_size * bit_widths[mb] / 8;
         }
     }
 
@@ -434,21 +463,19 @@ static carquet_status_t delta_encoder_flush_block(delta_encoder_t* enc) {
             enc->pos += carquet_bitpack_32(to_pack, mini_block_size,
                                             bit_widths[mb], enc->data + enc->pos);
         } else {
-            /* For bit widths > 32, pack directly as bytes (little-endian) */
-            int bytes_per_value = (bit_widths[mb] + 7) / 8;
+            /* Widths 33..64 are bit-packed as well */
+            uint64_t to_pack64[DELTA_MINI_BLOCK_SIZE];
             for (int i = start; i < end; i++) {
                 /* Use unsigned subtraction to avoid overflow UB */
-                uint64_t adjusted = (uint64_t)enc->deltas[i] - (uint64_t)min_delta;
-                for (int b = 0; b < bytes_per_value; b++) {
-                    enc->data[enc->pos++] = (uint8_t)(adjusted >> (b * 8));
-                }
+                to_pack64[i - start] = (uint64_t)enc->deltas[i] - (uint64_t)min_delta;
             }
             /* Pad with zeros */
             for (int i = end - start; i < mini_block_size; i++) {
-                for (int b = 0; b < bytes_per_value; b++) {
-                    enc->data[enc->pos++] = 0;
-                }
+                to_pack64[i] = 0;
             }
+            delta_pack64(to_pack64, mini_block_size, bit_widths[mb],
+                         enc->data + enc->pos);
+            enc->pos += (size_t)mini_block_size * bit_widths[mb] / 8;
         }
     }
 
